@@ -53,3 +53,11 @@ pub assume_specification<T: Clone>[ <[T]>::to_vec ](s: &[T]) -> (r: Vec<T>)
 pub trait UnwrapAbort<T> { fn unwrap_abort(self) -> T; }
 impl<T, E2> UnwrapAbort<T> for Result<T, E2> { #[verifier::external_body] fn unwrap_abort(self) -> (r: T) ensures self is Ok, r == self->Ok_0 { unimplemented!() } }
 impl<T> UnwrapAbort<T> for Option<T> { #[verifier::external_body] fn unwrap_abort(self) -> (r: T) ensures self is Some, r == self->Some_0 { unimplemented!() } }
+impl<K, V> BTreeMap<K, V> {
+    // BTreeMap::insert (the returned old value is not used by the verified code)
+    #[verifier::external_body] pub fn insert(&mut self, k: K, v: V) -> (r: Option<V>) ensures final(self)@ == old(self)@.insert(k, v) { unimplemented!() }
+}
+#[verifier::external_body]
+pub fn btree_index_g2<V: Copy>(m: &BTreeMap<usize, V>, k: &usize) -> (r: V)
+    ensures m@.dom().contains(*k), r == m@[*k]
+{ unimplemented!() }
